@@ -255,6 +255,26 @@ def merge_outs(eng, outs):
     return [(s, v) for (s, _, v) in m]
 
 
+def owner_prefixes(cls):
+    """names of the objects (World object names) a write to this address class may change, hidden state included"""
+    comp = cls[3]
+    nm = cls[0]
+    if comp == "unmapped":
+        return []
+    if comp == "mbc":
+        return ["mbc", "rtc"]
+    if comp.startswith("plain:"):
+        return ["Mapper"]
+    if comp == "ppu.PPU":
+        # LCDC switches the OAM-bug window off with the LCD; nothing else leaves the PPU
+        return ["PPU", "OAM"] if nm == "LCDC" else ["PPU"]
+    if comp == "oam.OAM":
+        return ["OAM"]
+    if comp == "serial.Serial":
+        return ["Serial"]
+    return [comp.split(".")[1]]
+
+
 def effect_task(kind, cls):
     name, lo, hi = cls[0], cls[1], cls[2]
 
@@ -279,6 +299,13 @@ def effect_task(kind, cls):
                     viol.append(z3.And(s0.pcond(), s1.pcond(), z3.Not(related(cls, a, b, kind)), r0 != r1))
         ob = lem.add("lemma:effect[%s]:write-%s-changes-only-documented-locations" % (kind, name), z3.Or(*viol) if viol else z3.BoolVal(True),
                      info={"detail": "write class %s %04X-%04X; read address b symbolic over 0000-FFFF" % (name, lo, hi)})
+        # hidden state too (write-only registers, counters): the write stays inside the component that owns the address -
+        # nothing at all changes for an unmapped address
+        owner = owner_prefixes(cls)
+        allowed = {oid for oid, nm in w.objname.items() if any(nm == o or nm.startswith(o + ".") for o in owner)}
+        fv = [z3.And(sp.pcond(), heaps_differ(eng, pre, sp, skip=allowed)) for (sp, _) in posts]
+        lem.add("lemma:effect[%s]:write-%s-stays-inside-%s" % (kind, name, "+".join(owner) if owner else "nothing"),
+                z3.Or(*fv) if fv else z3.BoolVal(True), info={"detail": "objects that may change: %s" % sorted(allowed)})
         if viol and len(r0s) == 1 and len(posts) == 1:
             from engine.replay2 import script_info
             inf = script_info(w, pre, "github.com/scottyw/tetromino/gameboy/memory", [(M + "Read", [m, b]), (M + "Write", [m, a, v]), (M + "Read", [m, b])],
